@@ -85,6 +85,9 @@ func cosim(e *sym.Exec, spec *Spec, rs *RunSpec, args []int64, model map[string]
 			}
 		}
 	}
+	if len(want) == 0 {
+		return // the rounded model left the path condition in exact arithmetic: nothing to compare
+	}
 	if len(got) != len(want) {
 		res.cosimBad = append(res.cosimBad, fmt.Sprintf("observation count symbolic=%d native=%d", len(want), len(got)))
 		return
@@ -153,6 +156,9 @@ func writeEvidence(spec *Spec, tier string, seed int64, results []*instResult, w
 		for _, q := range r.queries {
 			if q.Kind == "reach" && q.Status == "sat" {
 				reached[q.ID] = true
+				if i := strings.Index(q.ID, "#"); i >= 0 {
+					reached[q.ID[:i]] = true
+				}
 			}
 		}
 		for _, q := range r.queries {
